@@ -295,6 +295,10 @@ impl<'s> Interp<'s> {
                 let slot = self.push_entry(Entry::Acc(Some(Error::accumulator())));
                 self.trace.push(Ev::New(slot));
             }
+            Stmt::NewDefault => {
+                let slot = self.push_entry(Entry::Acc(Some(darling_core::error::Accumulator::default())));
+                self.trace.push(Ev::New(slot));
+            }
             Stmt::Push(slot, e) => {
                 if !self.has(*slot) {
                     return self.trace.push(Ev::Skipped);
